@@ -802,6 +802,14 @@ static void builtin_alloca(void) {
   println("  mov %%rax, %d(%%rbp)", current_fn->alloca_bottom->offset);
 }
 
+// Move the bit pattern of a float or double from %xmm0 to %rax.
+static void flonum_to_gp(Type *ty) {
+  if (ty->kind == TY_FLOAT)
+    println("  movd %%xmm0, %%eax");
+  else if (ty->kind == TY_DOUBLE)
+    println("  movq %%xmm0, %%rax");
+}
+
 // Generate code for a given node.
 static void gen_expr(Node *node) {
   println("  .loc %d %d", node->tok->file->file_no, node->tok->line_no);
@@ -1100,17 +1108,24 @@ static void gen_expr(Node *node) {
     println("  lea %s(%%rip), %%rax", node->unique_label);
     return;
   case ND_CAS: {
+    // The object is compared and exchanged as a bit pattern in
+    // general-purpose registers, whatever its type.
+    Type *ty = node->cas_addr->ty->base;
+    int sz = ty->size;
+    if (sz != 1 && sz != 2 && sz != 4 && sz != 8)
+      error_tok(node->tok, "atomic operation on an object of this size is not supported");
+
     gen_expr(node->cas_addr);
     push();
     gen_expr(node->cas_new);
+    flonum_to_gp(ty);
     push();
     gen_expr(node->cas_old);
     println("  mov %%rax, %%r8");
-    load(node->cas_old->ty->base);
+    println("  mov (%%rax), %s", reg_ax(sz));
     pop("%rdx"); // new
     pop("%rdi"); // addr
 
-    int sz = node->cas_addr->ty->base->size;
     println("  lock cmpxchg %s, (%%rdi)", reg_dx(sz));
     println("  sete %%cl");
     println("  je 1f");
@@ -1120,13 +1135,29 @@ static void gen_expr(Node *node) {
     return;
   }
   case ND_EXCH: {
+    Type *ty = node->lhs->ty->base;
+    int sz = ty->size;
+    if (sz != 1 && sz != 2 && sz != 4 && sz != 8)
+      error_tok(node->tok, "atomic operation on an object of this size is not supported");
+
     gen_expr(node->lhs);
     push();
     gen_expr(node->rhs);
+    flonum_to_gp(ty);
     pop("%rdi");
 
-    int sz = node->lhs->ty->base->size;
     println("  xchg %s, (%%rdi)", reg_ax(sz));
+
+    // The old value is the result: bring it into the form a value of
+    // its type has in a register.
+    if (ty->kind == TY_FLOAT)
+      println("  movd %%eax, %%xmm0");
+    else if (ty->kind == TY_DOUBLE)
+      println("  movq %%rax, %%xmm0");
+    else if (sz == 1)
+      println("  %s %%al, %%eax", ty->is_unsigned || ty->kind == TY_BOOL ? "movzbl" : "movsbl");
+    else if (sz == 2)
+      println("  %s %%ax, %%eax", ty->is_unsigned ? "movzwl" : "movswl");
     return;
   }
   }
